@@ -535,64 +535,321 @@ def getitem_obligations(R):
         discharge(R, '__getitem__', paths, f'core.__getitem__[co_argcount={argcount}]')
 
 
+class GK(Z):
+    """generic key of a foreach loop over a symbolic map: stands for EVERY key of the iterated domain at once
+    (vectorised execution of the body).  A map write at index GK is the bulk write
+    m := lambda j. If(dom0[j], v[k -> j], m[j]).  Sound when the body (1) writes maps only at its own key,
+    (2) reads written maps only at its own key, (3) does not branch on the key, (4) carries no scalar state from one
+    iteration to the next and (5) does not leave the loop early -- each is checked, else the path is undecided."""
+
+    def __init__(self, e, dom0):
+        Z.__init__(self, e)
+        self.dom0 = dom0
+
+    def __hash__(self):
+        return 7
+
+
+class Foreach:
+    """iteration protocol: yields one GK (or (GK, column)) and checks that the loop ran to completion"""
+    active = []
+
+    def __init__(self, sd, mode):
+        self.sd, self.mode = sd, mode
+
+    def __iter__(self):
+        c = SX.ctx()
+        k = c.new_int('k!each')
+        gk = GK(k, self.sd.dom)
+        npc = len(c.pc)
+        Foreach.active.append(gk)
+        done = False
+        try:
+            yield (gk, Column(self.sd, gk)) if self.mode == 'items' else gk
+            done = True
+        finally:
+            Foreach.active.remove(gk)
+            if not done:
+                raise SX.PathAbort('foreach loop left early (break / return / exception) -- not vectorisable')
+            for cond in c.pc[npc:]:
+                if any(z3.eq(v, k) for v in _vars(cond)):
+                    raise SX.PathAbort(f'foreach body branches on its key: {cond}')
+
+    def __len__(self):
+        raise SX.PathAbort('len() of a symbolic key view')
+
+
+def _vars(e):
+    out, todo, seen = [], [e], set()
+    while todo:
+        x = todo.pop()
+        if x.get_id() in seen:
+            continue
+        seen.add(x.get_id())
+        if z3.is_const(x) and x.decl().kind() == z3.Z3_OP_UNINTERPRETED:
+            out.append(x)
+        todo.extend(x.children())
+    return out
+
+
+class Column:
+    """values[...] of the generic key: entry(k, i)"""
+    F = z3.Function('entry', K, z3.IntSort(), z3.IntSort())
+
+    def __init__(self, sd, gk):
+        self.sd, self.gk = sd, gk
+
+    def __getitem__(self, i):
+        return Z(Column.F(self.gk.e, to_z3(i)))
+
+
+def _bulk(arr, gk, v, sort_real=False):
+    j = z3.Int('j!bulk')
+    vj = z3.substitute(to_z3(v, real=True) if sort_real else to_z3(v), (gk.e, j))
+    return z3.Lambda([j], z3.If(z3.Select(gk.dom0, j), vj, z3.Select(arr, j)))
+
+
+class FDict(SDict):
+    """SDict whose key views can be iterated by the vectorised foreach rule"""
+
+    def keys(self):
+        return Foreach(self, 'keys')
+
+    def items(self):
+        return Foreach(self, 'items')
+
+    def __iter__(self):
+        return iter(Foreach(self, 'keys'))
+
+    def __getitem__(self, k):
+        for g in Foreach.active:
+            if not (isinstance(k, GK) and k is g) and self.log:
+                raise SX.PathAbort('foreach body reads a written map at a foreign key')
+        return SDict.__getitem__(self, k)
+
+    def __setitem__(self, k, v):
+        if isinstance(k, GK):
+            self.log.append(('bulk-set', k, v))
+            j = z3.Int('j!bulk')
+            self.dom = z3.Lambda([j], z3.Or(z3.Select(k.dom0, j), z3.Select(self.dom, j)))
+            if self.val is not None:
+                self.val = _bulk(self.val, k, v)
+            return
+        if Foreach.active:
+            raise SX.PathAbort('foreach body writes a map at a foreign key')
+        SDict.__setitem__(self, k, v)
+
+    def __delitem__(self, k):
+        if Foreach.active or isinstance(k, GK):
+            raise SX.PathAbort('deletion inside a foreach loop')
+        SDict.__delitem__(self, k)
+
+    def update(self, other):
+        for k, v in other.items():
+            self[k] = v
+
+
+class FImp(ImpMap):
+    def __setitem__(self, k, v):
+        if isinstance(k, GK):
+            self.log.append((k, v))
+            self.arr = _bulk(self.arr, k, v, sort_real=True)
+            return
+        if Foreach.active:
+            raise SX.PathAbort('foreach body writes the importance map at a foreign key')
+        ImpMap.__setitem__(self, k, v)
+
+    def get(self, k, default=None):
+        if Foreach.active and not isinstance(k, GK) and self.log:
+            raise SX.PathAbort('foreach body reads the written importance map at a foreign key')
+        return ImpMap.get(self, k, default)
+
+    def update(self, other=(), **kw):
+        items = other.items() if hasattr(other, 'items') else other
+        for k, v in items:
+            self[k] = v
+
+
+class FSelf:
+    """contract-level `self` for freeze_data / load_data: scalar attributes are frozen (no cross-iteration state)"""
+
+    def __init__(self, freeze_contract):
+        object.__setattr__(self, 'data', FDict('data', z3.IntSort()))
+        object.__setattr__(self, 'last_accessed', FDict('last_accessed', z3.IntSort()))
+        object.__setattr__(self, 'var_importance', FImp())
+        object.__setattr__(self, '_freeze_contract', freeze_contract)
+        object.__setattr__(self, 'calls', [])
+
+    def __setattr__(self, n, v):
+        raise SX.PathAbort(f'self.{n} assigned by a function whose contract says it only touches data / importance')
+
+    def freeze_data(self):
+        # callee by contract: importance := 0 on every key currently in data, nothing else
+        self.calls.append('freeze_data')
+        j = z3.Int('j!fz')
+        imp = self.var_importance
+        imp.arr = z3.Lambda([j], z3.If(z3.Select(self.data.dom, j), z3.RealVal(0), z3.Select(imp.arr, j)))
+        imp.log.append(('freeze', None))
+
+    def myprint(self, msg):
+        pass
+
+
+def _carried_locals(func):
+    """names assigned inside a loop body and used outside it (condition 4 of the foreach rule)"""
+    tree, loops = SX.extract_loops(func)
+    bad = []
+    for lp in loops:
+        inside = {id(n) for n in ast.walk(lp)}
+        targets = {n.id for n in ast.walk(lp.target) if isinstance(n, ast.Name)} if isinstance(lp, ast.For) else set()
+        assigned = {n.id for b in lp.body for n in ast.walk(b) if isinstance(n, ast.Name) and isinstance(n.ctx, ast.Store)} - targets
+        aug = {n.target.id for b in lp.body for n in ast.walk(b) if isinstance(n, ast.AugAssign) and isinstance(n.target, ast.Name)}
+        used_outside = {n.id for n in ast.walk(tree) if isinstance(n, ast.Name) and isinstance(n.ctx, ast.Load) and id(n) not in inside}
+        bad += sorted((assigned & used_outside) | aug)
+    return bad
+
+
 def freeze_obligations(R):
-    """freeze_data / load_data: every key then in data gets importance 0 (foreach contract)."""
+    """freeze_data / load_data against their contracts, executing the REAL code objects on a symbolic cache in which
+    a loop (or comprehension, or dict.fromkeys / update) over a map runs once for a generic key standing for every key
+    of that map (vectorised foreach rule, conditions checked).  Shape-agnostic: no pattern is matched on the source.
+      freeze_data : ensures  forall j. j in data  -> importance'[j] == 0
+                             forall j. j not in data -> importance'[j] == importance[j];  data, last_accessed unchanged
+      load_data   : ensures  forall j. j in sim_data -> j in data' and data'[j] == sim_data[j][iteration]
+                             forall j. j in data' <-> j in data or j in sim_data;  other entries of data unchanged
+                             forall j. j in data' -> importance'[j] == 0 (everything frozen); the rest unchanged"""
+    import types
     import aurel.core as C
     for name in ('freeze_data', 'load_data'):
         real = getattr(C.AurelCore, name)
         R.under_contract(real)
-        tree, loops = SX.extract_loops(real)
         t0 = time.time()
-        src = ast.unparse(tree)
-        ok = True
-        detail = ''
-        if name == 'freeze_data':
-            lp = loops[0]
-            ok = (ast.unparse(lp.iter) in ('self.data.keys()', 'self.data') and len(lp.body) == 1
-                  and ast.unparse(lp.body[0]) == f'self.var_importance[{ast.unparse(lp.target)}] = 0')
-            detail = ast.unparse(lp)
-            # run the body on a generic key
-            def run():
-                c = SX.ctx()
-                s = SymSelf(False)
-                key = c.new_int('key')
-                c.assume(s.data.has(key))
-                run_block(lp.body, {}, {'self': s, ast.unparse(lp.target): Z(key)})
-                c.require('body sets importance of the current key to 0', s.var_importance.imp(key) == 0)
-                c.require('body touches nothing else', z3.BoolVal(len(s.var_importance.log) == 1 and not s.data.log))
+        carried = _carried_locals(real)
+
+        def run(name=name, real=real):
+            c = SX.ctx()
+            if carried:
+                raise SX.PathAbort(f'loop-carried local(s) {carried}: foreach rule not applicable')
+            s = FSelf(None)
+            dom0, val0, imp0, la0 = s.data.dom, s.data.val, s.var_importance.arr, s.last_accessed.dom
+            j = z3.Int('j!post')
+            fn = types.FunctionType(real.__code__, dict(real.__globals__), real.__name__, real.__defaults__, real.__closure__)
+            if name == 'freeze_data':
+                fn(s)
+                imp1 = s.var_importance.arr
+                c.require('every key in data gets importance 0', z3.ForAll([j], z3.Implies(z3.Select(dom0, j), z3.Select(imp1, j) == 0)))
+                c.require('importance of keys not in data is unchanged', z3.ForAll([j], z3.Implies(z3.Not(z3.Select(dom0, j)), z3.Select(imp1, j) == z3.Select(imp0, j))))
+                c.require('data and the age table are not written', z3.BoolVal(not s.data.log and not s.last_accessed.log))
+            else:
+                sim = FDict('sim_data')
+                it = Z(c.new_int('iteration'))
+                fn(s, sim, it)
+                d1, v1, imp1 = s.data.dom, s.data.val, s.var_importance.arr
+                ent = Column.F(j, it.e)
+                c.require('every key of sim_data is stored with the entry of the requested iteration',
+                          z3.ForAll([j], z3.Implies(z3.Select(sim.dom, j), z3.And(z3.Select(d1, j), z3.Select(v1, j) == ent))))
+                c.require('data afterwards = data before + keys of sim_data; other entries unchanged',
+                          z3.ForAll([j], z3.And(z3.Select(d1, j) == z3.Or(z3.Select(dom0, j), z3.Select(sim.dom, j)),
+                                                z3.Implies(z3.And(z3.Select(dom0, j), z3.Not(z3.Select(sim.dom, j))), z3.Select(v1, j) == z3.Select(val0, j)))))
+                c.require('everything in data is frozen afterwards', z3.ForAll([j], z3.Implies(z3.Select(d1, j), z3.Select(imp1, j) == 0)))
+                c.require('importance of absent keys unchanged', z3.ForAll([j], z3.Implies(z3.Not(z3.Select(d1, j)), z3.Select(imp1, j) == z3.Select(imp0, j))))
+                c.require('the age table and sim_data are not written', z3.BoolVal(not s.last_accessed.log and not sim.log))
+        try:
             paths = explore(run)
-            discharge(R, name, paths, f'core.{name}[foreach key in data]')
-        else:
-            calls_freeze = any(isinstance(n, ast.Call) and ast.unparse(n.func) == 'self.freeze_data' for n in ast.walk(tree))
-            last_is_freeze = ast.unparse(tree.body[-1]) == 'self.freeze_data()'
-            lp = loops[0]
-            stores = (len(lp.body) == 1 and ast.unparse(lp.body[0]) == 'self.data[key] = values[iteration]')
-            ok = calls_freeze and last_is_freeze and stores
-            detail = src[-200:]
-        R.ob(f'core.{name}:freezes-exactly-the-keys-in-data', name, 'discharged' if ok else 'undecided', 'ast+z3',
-             time.time() - t0, '' if ok else 'loop shape not recognised: ' + detail)
+        except SX.PathAbort as e:
+            R.ob(f'core.{name}:paths', name, 'undecided', 'z3', time.time() - t0, str(e))
+            continue
+        R.paths += len(paths)
+        discharge(R, name, paths, f'core.{name}[vectorised foreach]')
 
 
 def get_size_obligations(R):
-    """get_size(x) >= 0 by structural induction: every return is nbytes, a sum of recursive calls, or getsizeof."""
+    """get_size(x) >= 0.
+    (1) structural induction when every return expression is recognisably nbytes / getsizeof / a sum of recursive
+        calls (as a `sum(...)` of calls or as an accumulator `t = 0; for ..: t += <calls>; return t`): all containers.
+    (2) otherwise (unrecognised shape): the real function runs with the recursive call, nbytes and getsizeof replaced
+        by the induction hypothesis (fresh symbolic values >= 0) on lists / tuples / dicts of 0..3 entries: bounded in
+        the container length, reported as bounded."""
     import aurel.utils.memory as M
     R.under_contract(M.get_size)
     tree, _ = SX.extract_loops(M.get_size)
     t0 = time.time()
     rets = [n for n in ast.walk(tree) if isinstance(n, ast.Return)]
+
+    def only_recursive_calls(expr):
+        calls = [c for c in ast.walk(expr) if isinstance(c, ast.Call)]
+        others = [n for n in ast.walk(expr) if not isinstance(n, (ast.Call, ast.BinOp, ast.Add, ast.Name, ast.Load, ast.expr_context))]
+        return bool(calls) and all(ast.unparse(c.func) == 'get_size' for c in calls) and not others
+
+    def accumulator_ok(name):
+        """name is initialised to 0 and only ever changed by `name += <sum of recursive calls>`"""
+        ok_init = False
+        for n in ast.walk(tree):
+            if isinstance(n, ast.Assign) and any(isinstance(t, ast.Name) and t.id == name for t in n.targets):
+                if isinstance(n.value, ast.Constant) and n.value.value == 0:
+                    ok_init = True
+                else:
+                    return False
+            if isinstance(n, ast.AugAssign) and isinstance(n.target, ast.Name) and n.target.id == name:
+                if not (isinstance(n.op, ast.Add) and only_recursive_calls(n.value)):
+                    return False
+        return ok_init
     bad = []
     for r in rets:
-        s = ast.unparse(r.value)
-        ok = (s == 'obj.nbytes' or s == 'sys.getsizeof(obj)'
-              or (isinstance(r.value, ast.Call) and ast.unparse(r.value.func) == 'sum'
-                  and all(isinstance(c, ast.Call) and ast.unparse(c.func) == 'get_size'
-                          for c in ast.walk(r.value.args[0].elt) if isinstance(c, ast.Call))))
+        sx = ast.unparse(r.value)
+        ok = (sx == 'obj.nbytes' or sx == 'sys.getsizeof(obj)'
+              or (isinstance(r.value, ast.Call) and ast.unparse(r.value.func) == 'sum' and len(r.value.args) == 1
+                  and isinstance(r.value.args[0], (ast.GeneratorExp, ast.ListComp)) and only_recursive_calls(r.value.args[0].elt))
+              or (isinstance(r.value, ast.Name) and accumulator_ok(r.value.id)))
         if not ok:
-            bad.append(s)
+            bad.append(sx)
     R.trust('ndarray.nbytes >= 0 and sys.getsizeof(x) >= 0 (CPython / numpy)')
-    R.ob('memory.get_size:non-negative (structural induction over the return expressions)', 'get_size',
-         'discharged' if not bad and rets else 'undecided', 'ast', time.time() - t0,
-         '' if not bad else 'return expression not recognised: ' + '; '.join(bad))
+    if rets and not bad:
+        R.ob('memory.get_size:non-negative (structural induction over the return expressions)', 'get_size',
+             'discharged', 'ast', time.time() - t0, f'{len(rets)} return expressions: nbytes / getsizeof / sums of recursive calls')
+        return
+    # (2) semantic fall-back with the induction hypothesis as stubs
+    import types
+    import numpy as np
+    fails = []
+    n = 0
+
+    def run_one(obj):
+        def body():
+            c = SX.ctx()
+
+            def ih(x):
+                return fresh_nonneg(c, 'ih')
+
+            class Sys:
+                def getsizeof(self, x):
+                    return fresh_nonneg(c, 'getsizeof')
+            g = dict(M.__dict__)
+            g.update(get_size=ih, sys=Sys())
+            fn = types.FunctionType(M.get_size.__code__, g, 'get_size', M.get_size.__defaults__, M.get_size.__closure__)
+            res = fn(obj)
+            c.require('result >= 0', to_z3(res, real=True) >= 0)
+        return explore(body)
+
+    class Arr(np.ndarray):
+        pass
+    objs = [np.zeros(3), 5, 'abc', None]
+    for ln in range(4):
+        objs += [[object()] * ln, tuple([object()] * ln), {f'k{i}': object() for i in range(ln)}]
+    for obj in objs:
+        n += 1
+        try:
+            for res, c in run_one(obj):
+                for nm, goal, pc in c.obls:
+                    v, model, secs = prove(pc, goal)
+                    if v != 'valid':
+                        fails.append(f'{type(obj).__name__} of {len(obj) if hasattr(obj, "__len__") else 1}: {v} {model}')
+        except Exception as e:
+            fails.append(f'{type(obj).__name__}: {type(e).__name__}: {e}')
+    R.bounded.append(dict(function='aurel.utils.memory.get_size', bound='return shapes not recognised for the structural induction: containers of 0..3 entries with the induction hypothesis for their contents'))
+    R.ob('memory.get_size:non-negative (induction hypothesis for contents; containers of 0..3 entries)', 'get_size',
+         'refuted' if fails else 'bounded-ok', 'z3', time.time() - t0, '; '.join(fails[:3]) or f'{n} object kinds; unrecognised return expressions: {bad}',
+         fails[:3] or None, bounded='container length <= 3')
 
 
 def native_history_replay(o=None, nhist=150, length=40, seed=0):
